@@ -120,3 +120,26 @@ CLAIMS["C15"] = {
     "note": "Interleavings within one instant are sampled by the Go scheduler; schedules that would leave a goroutine waiting on a bus mutex behind an emit stalled past the end of a step are not run (invisible to synctest); "
             "a bubble that does not finish within the 120 s watchdog counts as a violation for this property (mutex deadlocks can only show up that way).",
 }
+
+CLAIMS["C04"] = {
+    "technique": "fault enumeration (every I/O operation index x fault kind, every cancellation / close instant, every gater hook and resource-manager refusal) plus rapid-generated fault pairs and two-swarm scenarios, on virtual time with residual-usage, raw-close and goroutine-leak audits",
+    "design_ref": "DESIGN.md section 3, C04",
+    "text": "For each configuration {Noise,TLS} x {PSK,none} a fault-free dry run of one connection attempt plus a stream round trip (real tcp.TcpTransport dial path and real upgrader listener over in-memory connections, real "
+            "resource managers on both sides) counts the raw I/O operations of each end; then every single fault is enumerated: read/write error, EOF, peer close, stall and concurrent Close at every operation index of either end, "
+            "context cancellation / listener Close / connection Close between every two operations, each gater hook rejecting, the n-th OpenConnection/SetPeer/BeginSpan/ReserveMemory refused on either side, nobody accepting until the "
+            "accept timeout, the peer hanging up in the accept queue (quick: two configurations completely and every third fault of the others; thorough: all). rapid adds fault pairs and two real swarms (stream open, protocol/service "
+            "scope and memory refusals, ClosePeer and Swarm.Close racing). After quiescence every scope of both real managers must read zero, both raw ends must have seen Close, a clean attempt must succeed with a working stream, "
+            "closed swarms list no connections or listen addresses, and the bubble must exit (no goroutine left). One genuine leak (accept queue) found, repaired, kept as witness. 6/6 probe mutants detected.",
+    "note": "WebSocket, QUIC, WebTransport and WebRTC call sites are not driven; FD leaks are observed as 'raw connection not closed'; a stalled operation reports its timeout at once instead of consuming virtual time; "
+            "bubbles frozen by a mutex wait across virtual time (substrate limitation) are abandoned and counted as inconclusive cases.",
+}
+CLAIMS["C07"] = {
+    "technique": "property-based testing (rapid) of generated handler histories, knowledge states and request lists against a reference model on real host pairs in synctest bubbles, plus bounded-exhaustive enumeration of a small domain; -race pass (thorough)",
+    "design_ref": "DESIGN.md section 3, C07",
+    "text": "Two real hosts (BasicHost / BlankHost pairings) on real swarms with real Noise, yamux, identify and resource managers over in-memory connections run generated listener handler histories (exact IDs, prefix/path/semver/alias "
+            "matchers, removals, replacements), dialer knowledge states set through the peerstore (unknown, accurate, stale, over-optimistic), ordered request lists, 1-4 concurrent opens, direct and limited connections. A returned "
+            "stream is bound to a requested ID; exactly one installed handler registered for or matching that ID runs on a stream reporting the same ID and echoes this stream's nonce; with no common protocol the open fails at NewStream "
+            "or on first use and no handler runs; removed or replaced handlers never run; first-use failures occur only for protocols chosen from wrong knowledge; both hosts' protocol scopes count the stream while open and return to "
+            "baseline after close. 17/18 probe mutants detected (1 equivalent). Exploration.",
+    "note": "go-multistream is trusted; handler changes occur between batches at quiescence; infinite resource limits; no QUIC substrate; interleavings inside one virtual instant are picked by the scheduler.",
+}
